@@ -468,6 +468,15 @@ def c01_cases(tier, seed):
         cases.append(Case(gen_vi_ops(rng, t), mode="vi", initial=(t[:k], t[k:]), timeout=0, prompt="> ",
                           meta={"indent_size": rng.choice([1, 3, 4, 8, 33, 40])} if rng.random() < 0.4 else {}))
     cases += cx_esc_cases(rng, max(6, n // 40))
+    # counted Up / Down (k / j / - / +) inside texts of several lines under prompts of several widths, then an edit at the place reached
+    cases += line_motion_cases(rng, max(12, n // 20))
+    # vi overwrite sessions (R) over characters whose UTF-8 length differs from what is typed, then `.` at another place, undos
+    for i in range(max(8, n // 30)):
+        t = rng.choice(["éa éa éa", "日x 日x", "ab ab", "a\u0301b a\u0301b"])
+        typed = rng.choice([["x", "y"], ["é", "z"], ["日"], ["a", "b", "c"]])
+        keys = ["Esc", "0", "R"] + typed + rng.choice([[], ["Right", "q"]]) + ["Esc", rng.choice(["w", "W", "l", "$"]), ".", rng.choice(["u", "0", "."]),
+                                                                                 rng.choice(["u", "x"]), "Enter"]
+        cases.append(Case(keys, mode="vi", initial=(t, ""), timeout=0, prompt="> ", meta={}))
     # every operator with every character search (to / till, forward / backward), on characters that do occur, then put / undo
     for op in ("d", "y", "c"):
         for cs in ("f", "t", "F", "T"):
@@ -972,6 +981,15 @@ def c05_cases(tier, seed):
             keys += cmd() + rng.choice([["l"], ["l"], [], ["h"], ["l", "l"]])
         keys += rng.choice([["u"], ["u", "u"], ["u", "u", "u"], ["C-_"], ["u", "l", "u"]]) + ["Enter"]
         cases.append(Case(keys, mode="vi", initial=(t, ""), timeout=0, prompt="> "))
+    # vi: a change (c + motion, C, s, S) made once by hand, then REPEATED with `.` elsewhere, then undos: the repeated change is one
+    # undo unit like the first
+    for i in range(max(8, n // 25)):
+        t = rng.choice(["hello world again", "a b c d", "é日 x yz w"])
+        chg = [["c", "w"], ["c", "e"], ["C"], ["s"], ["c", "l"], ["2", "s"], ["c", "b"]][i % 7]
+        nu = rng.randint(1, 4)
+        keys = ["Esc", "0"] + chg + list(rng.choice(["foo", "é", "Q"])) + ["Esc", rng.choice(["w", "W", "l"]), "."] + ["u"] * nu + ["Enter"]
+        # (undo_tail: the script ends with that many single-key undos in command mode, then Enter -- what C05's oracle looks at)
+        cases.append(Case(keys, mode="vi", initial=(t, ""), timeout=0, prompt="> ", meta={"undo_tail": nu}))
     # vi: an insert session whose FIRST action, before any character is typed, is itself a grouped command (transpose, history
     # move, completion, search): a group opened right inside a still-empty group; then Esc and undos
     for i in range(max(10, n // 20)):
